@@ -262,10 +262,12 @@ PROPS = {
     },
     "C08": {
         "manifest": {
-            "text": "Every alias pattern {pushed from the script, DUP, 2DUP, 3DUP, OVER, 2OVER, PICK, TUCK, IFDUP, via the alt stack, ROLL of a duplicate, both halves of SPLIT} x every value-changing opcode (with shift counts 0..17, NUM2BIN/SPLIT sizes, bitwise, arithmetic, hashes) x operand shapes x both eras is executed on the real interpreter and compared item by item after every step with the value-semantics Lean model (an in-place write shows up as a differing twin), and the caller's script buffers and transaction bytes are compared before and after every execution (also with a transaction context). Lean theorems over a reference-semantics model of stack items (slices into heap cells): a handler that allocates its result changes the top item only - every other item keeps its value whatever the sharing; DUP and SPLIT only create references; machine-checked witness that an in-place handler changes the twin and the script cell.",
-            "note": "Partial: 'every handler allocates its result' is established by the differential alias probes, not by a regenerated write-site fact (the planned SSA extractor Gen/Writes is not built). Trusted: Lean kernel + standard axioms, harness/generators/comparer, driver glue.",
+            "text": "Every alias pattern {pushed from the script, DUP, 2DUP, 3DUP, OVER, 2OVER, PICK, TUCK, IFDUP, via the alt stack, ROLL of a duplicate, both halves of SPLIT} x every value-changing opcode (with shift counts 0..17, NUM2BIN/SPLIT sizes, bitwise, arithmetic, hashes) x operand shapes x both eras is executed on the real interpreter and compared item by item after every step with the value-semantics Lean model (an in-place write shows up as a differing twin), and the caller's script buffers and transaction bytes are compared before and after every execution (also with a transaction context). Lean theorems over a reference-semantics model of stack items (slices into heap cells): a handler that allocates its result changes the top item only - every other item keeps its value whatever the sharing; DUP and SPLIT only create references; machine-checked witness that an in-place handler changes the twin and the script cell; regenerated write-site table (go/ssa) with the obligation that every written buffer is freshly allocated.",
+            "note": "'Every handler allocates its result' is a regenerated fact: extract/writes.go (go/ssa) lists every byte store/copy/append in bscript/interpreter with the origin of the target slice, and the obligation handlers_write_only_fresh_buffers re-checks it on every run; the differential alias probes observe the same thing at run time. Trusted: Lean kernel + standard axioms, harness/generators/comparer, driver glue.",
         },
         "generators": ["C08"],
+        "gen_obligations": ["handlers_write_only_fresh_buffers", "write_review_current"],
+        "witness": [("GoBT.Interp.WriteReview", "GoBT.Interp.WriteReview.offending")],
         "thorough_seeds": 1,
         "rule": "13 duplication patterns x ~95 value-changing operations x 11 (quick) / 15 operand shapes x 2 eras (quick: 1 in 3 sampled), SPLIT halves at every cut up to 4, 300/20000 random programs with a transaction context. Non-trivial = program that executed at least 2 instructions.",
         "nontrivial": lambda op, impl: impl.count("|") >= 1,
